@@ -974,10 +974,10 @@ pub fn id_strategy(wide: bool) -> BoxedStrategy<u16> {
 #[derive(Clone, Copy, Debug, Hash, Serialize, Deserialize, PartialEq, Eq, PartialOrd, Ord)]
 pub enum TypeSel {
     Ord(u16),
-    Uuid(u8),
+    Uuid(u16),
 }
 
-pub fn pool_uuid(i: u8) -> [u8; 16] {
+pub fn pool_uuid(i: u16) -> [u8; 16] {
     match i {
         0 => [0; 16],
         1 => [0xff; 16],
@@ -1012,7 +1012,17 @@ pub fn type_sel_strategy(many_uuids: bool) -> BoxedStrategy<TypeSel> {
         4 => (1u16..24).prop_map(TypeSel::Ord),
         1 => proptest::sample::select(vec![0x3fffu16, 0x3ffe, 0x2000, 63, 64]).prop_map(TypeSel::Ord),
         1 => (1u16..0x4000).prop_map(TypeSel::Ord),
-        4 => (0u8..uuid_hi).prop_map(TypeSel::Uuid),
+        4 => (0u16..uuid_hi as u16).prop_map(TypeSel::Uuid),
+    ]
+    .boxed()
+}
+
+/// Type selector for programs with hundreds of distinct UUID types (more than the 256 extended type
+/// numbers the builder reserves ahead when a snapshot is recycled).
+pub fn type_sel_strategy_huge() -> BoxedStrategy<TypeSel> {
+    prop_oneof![
+        1 => (1u16..24).prop_map(TypeSel::Ord),
+        12 => (0u16..420).prop_map(TypeSel::Uuid),
     ]
     .boxed()
 }
